@@ -1,4 +1,58 @@
-From Coq Require Import List NArith Bool.
-From SK Require Import lib.LGraph lib.Mono model.C06_Model proof.C06_Proof.
-Theorem C06_stub : forall n, capped 0 n = false. Proof. exact capped_0. Qed.
-Print Assumptions C06_stub.
+(** C06 — subgraph search returns exactly the label-preserving monomorphisms.
+    Statements only; every proof is [exact <lemma of proof/C06_*.v>].
+    Vocabulary (lib/C06_Spec.v, definitions only): [is_mono_on], [is_mono], [gconn],
+    [separating], [vf2_contract], [oracle_ok], [limit]; model: model/C06_Model.v.
+    The model is a pure function of its inputs, so "without modifying its inputs" holds in
+    the model by construction; for the Python code the adapter deep-compares host and
+    pattern before/after every call (monitor, listed under TESTED_NOT_PROVED). *)
+From Coq Require Import List NArith Bool Permutation SetoidList Relations.
+From SK Require Import lib.LGraph lib.Mono model.C06_Model lib.C06_Spec proof.C06_All.
+Import ListNotations.
+
+(** ** 0. What the specification predicates say, written out *)
+Theorem C06_spec_meaning : forall (H P : graph) (hn pn : list N) (m : mapping),
+  is_mono_on H P hn pn m <->
+  (* a function defined exactly on the pattern nodes *)
+  NoDup (map fst m) /\ (forall p, In p (map fst m) <-> In p pn) /\
+  (* injective *)
+  NoDup (map snd m) /\
+  (* into the host nodes; selected node attributes equal, host hcount >= pattern hcount *)
+  (forall p h, In (p, h) m ->
+     In h hn /\ fst (lab H h) = fst (lab P p) /\ (snd (lab P p) <= snd (lab H h))%N) /\
+  (* every pattern edge lands on a host edge with equal selected edge attributes *)
+  (forall p h p' h' b, In (p, h) m -> In (p', h') m -> LGraph.adj P p p' = Some b ->
+     LGraph.adj H h h' = Some b).
+Proof. exact is_mono_on_meaning. Qed.
+Print Assumptions C06_spec_meaning.
+
+(** ** 1. Exhaustive strategy *)
+(** no limits ([max_results] None, threshold not below the number of matches): the result
+    is sound, complete and duplicate-free (mappings compared as sets of pairs), under the
+    VF2 contract for the one enumeration call the strategy makes *)
+Theorem C06_all_exact : forall (enum : list N -> list N -> list mapping) (T : N) (strict : bool) (H P : graph),
+  vf2_contract enum H P (node_ids H) (node_ids P) ->
+  (lenN (enum (node_ids H) (node_ids P)) <= T)%N ->
+  let R := find enum (Cfg 0 0 T strict false) H P in
+  (forall m, In m R -> is_mono H P m) /\
+  (forall m, is_mono H P m -> exists m', In m' R /\ Permutation m m') /\
+  NoDupA (@Permutation (N * N)) R.
+Proof. exact all_exact. Qed.
+Print Assumptions C06_all_exact.
+
+(** the contract is satisfiable, and the enumerator the harness monitors VF2 against meets
+    it: with [enum := monos_on H P] (what [run_set] evaluates) no premise about VF2 is left *)
+Theorem C06_enumerator_meets_contract : forall (H P : graph), gwf P ->
+  forall hn pn, NoDup hn -> NoDup pn -> vf2_contract (monos_on H P) H P hn pn.
+Proof. exact monos_on_contract. Qed.
+Print Assumptions C06_enumerator_meets_contract.
+
+(** ** 4. Result limits, exhaustive strategy: for every [max_results] and [threshold] the
+    public entry point returns the prefix of length min(max_results, #matches) of the
+    unlimited listing, or [] when that length exceeds the threshold — nothing else *)
+Theorem C06_limits_all : forall (enum : list N -> list N -> list mapping) (maxr thr : N) (strict : bool) (H P : graph),
+  find enum (Cfg 0 maxr thr strict false) H P =
+  let U := enum (node_ids H) (node_ids P) in
+  let k := if (maxr =? 0)%N then lenN U else N.min maxr (lenN U) in
+  if (thr <? k)%N then [] else firstn (N.to_nat k) U.
+Proof. exact find_all_limits. Qed.
+Print Assumptions C06_limits_all.
